@@ -338,7 +338,11 @@ def playback(ws, group, harness_rec, pid):
         pcmd += ["--features", group["features"]]
     pcmd += ["--", "kani_concrete_playback", "--test-threads", "1"]
     penv["RUST_BACKTRACE"] = "0"
-    rc2, out2, _ = run(pcmd, cwd=ws, timeout=1800, env=penv)
+    # native playback builds share one target directory: one at a time
+    penv["CARGO_TARGET_DIR"] = os.path.join(SCRATCH, "target-playback")
+    with open(os.path.join(SCRATCH, "lock-playback"), "w") as lk:
+        fcntl.flock(lk, fcntl.LOCK_EX)
+        rc2, out2, _ = run(pcmd, cwd=ws, timeout=1800, env=penv)
     res["native_cmd"] = " ".join(pcmd)
     out2 = lib_section(out2)
     panics = re.findall(r"panicked at ([^\n]*):\n([^\n]*)", out2)
@@ -506,7 +510,7 @@ def do_replay(pid, cfg, args):
             f.write("extern crate std; use std::vec; use std::vec::Vec;\nuse super::%s::*;\n" % rp["module"])
             for t in rp["playback_tests"]:
                 f.write(t + "\n")
-        env = dict(ENV, CARGO_TARGET_DIR=target_dir(), RUST_BACKTRACE="0")
+        env = dict(ENV, CARGO_TARGET_DIR=os.path.join(SCRATCH, "target-playback"), RUST_BACKTRACE="0")
         env["RUSTFLAGS"] = (env.get("RUSTFLAGS", "") + " --cfg verif_playback").strip()
         pcmd = ["cargo", "kani", "playback", "-Z", "concrete-playback", "-p", group["crate"]]
         if group.get("features"):
